@@ -43,7 +43,9 @@ def generate(seed, tier="quick", mode=None, **kw):
         lines = []
         for _ in range(r.randint(1, 12)):
             c = r.random()
-            if c < 0.25:
+            if c < 0.10 and o["ip"]:
+                lines.append(GC.directed_line(r))
+            elif c < 0.25:
                 lines.append(G.lit_line(r.choice(G.BENIGN)))
             elif c < 0.60:
                 lines.append(G.expand(r, r.choice(G.LINES_A4), ctx))
@@ -117,6 +119,7 @@ def _reported(h, rel):
 
 
 def check(plan):
+    plan = dict(plan, files=GC.resolve_directed(plan["files"], plan["opts"], plan["knobs"][0]))
     if plan["mode"] == "undo":
         return _check_undo(plan)
     return _check_hist(plan)
@@ -230,7 +233,8 @@ def _check_hist(plan):
                 elif fl["kind"] == "eio_read":
                     sysf.append({"kind": "eio_read", "path": fl["victim"], "at": fl["at"]})
             X = W.run_world({"disk": disk, "procs": [{"knobs": plan["knobs"][1], "faults": sysf,
-                                                        "steps": [_step(plan, plan["entry"], "in", "out")]}]})
+                                                        "steps": [_step(plan, plan["entry"], "in", "out",
+                                                                        dump=("map" if o["ip"] and fl["at"] % 2 else None))]}]})
             h = X["procs"][0]
             steps += h["nsys"]
             digest_items.append(W.public_hist(h))
